@@ -39,8 +39,8 @@ class SymbolRegistry(AttrDict):
             print("Adding symbol '%s'" % name)
 
         # Don't override if symbol is expr kind.
-        if kind == 'expr' and name in symbol_kinds:
-            return symbol_kinds[name]
+        if kind == 'expr' and name in self:
+            return self[name]
 
         self[name] = symbol
         symbol_kinds[name] = kind
@@ -75,6 +75,7 @@ class SymbolRegistry(AttrDict):
     def delete(self, name):
 
         self.pop(name)
+        symbol_kinds.pop(name, None)
 
     def add_domain(self, name: str, **assumptions):
 
